@@ -174,7 +174,7 @@ func ruleELIDE(c *Ctx) []Obligation {
 			got := normRoot(other)
 			switch {
 			case !has:
-				o.Verdict, o.Detail = UNDECIDED, "no translator case for *ast.Comdat fills a " + k
+				o.Verdict, o.Detail = UNDECIDED, "no translator case for *ast.Comdat fills a "+k
 			case got != want:
 				o.Verdict = VIOL
 				o.Detail = fmt.Sprintf("the printer writes the bare `comdat` when Comdat.Name == %s, the translator (%s) resolves a bare `comdat` to %s: for an entity on which the two differ the printed text names another comdat (or none)", got, readerPos[k], want)
@@ -348,8 +348,12 @@ func ruleLITREADER(c *Ctx) []Obligation {
 			e = unparen(e)
 			if call, ok := e.(*ast.CallExpr); ok && len(call.Args) == 0 {
 				if se, ok := unparen(call.Fun).(*ast.SelectorExpr); ok && se.Sel.Name == "Text" {
+					// <tok>.Text(): the constant node consists of the literal token alone
+					if id, ok := unparen(se.X).(*ast.Ident); ok && info.ObjectOf(id) == tok {
+						return true
+					}
 					if c2, ok := unparen(se.X).(*ast.CallExpr); ok {
-						if s2, ok := unparen(c2.Fun).(*ast.SelectorExpr); ok && s2.Sel.Name == lit {
+						if s2, ok := unparen(c2.Fun).(*ast.SelectorExpr); ok && (s2.Sel.Name == lit || s2.Sel.Name == "LlvmNode") {
 							if id, ok := unparen(s2.X).(*ast.Ident); ok && info.ObjectOf(id) == tok {
 								return true
 							}
@@ -850,6 +854,11 @@ func ruleENCSET(c *Ctx) []Obligation {
 					if call, ok := inner.(*ast.CallExpr); ok {
 						if f := calleeOf(info, call); f != nil && f.Pkg() != nil && escapers[f.Pkg().Path()+"."+f.Name()] {
 							o.Detail = "operand is the output of " + f.Name()
+							obs = append(obs, o)
+							continue
+						}
+						if f := calleeOf(info, call); f != nil && f.Pkg() != nil && f.Pkg().Path() == "strconv" && (f.Name() == "FormatInt" || f.Name() == "FormatUint" || f.Name() == "Itoa") {
+							o.Detail = "operand is a formatted integer (digits, letters, sign): a subset of the verbatim set"
 							obs = append(obs, o)
 							continue
 						}
